@@ -104,14 +104,14 @@ pub fn s_len(f: Family, max_len: usize) -> Space {
 }
 
 /// lengths of the quick tier of S_len for one (mode, level): every length 0..=128, the
-/// neighbourhood {cap-1, cap, cap+1} of all 40 capacity thresholds, and every 16th length
+/// neighbourhood {cap-1, cap, cap+1} of all 40 capacity thresholds, and every 7th length
 pub fn quick_lengths(m: usize, e: usize, max_len: usize) -> Vec<usize> {
     let mut l: Vec<usize> = (0..=128.min(max_len)).collect();
     for v in 1..=40 {
         let c = r::cap(v, e, m);
         l.extend([c.saturating_sub(1), c, c + 1]);
     }
-    l.extend((0..=max_len).step_by(16));
+    l.extend((0..=max_len).step_by(7));
     l.push(max_len);
     l.retain(|&x| x <= max_len);
     l.sort();
@@ -144,7 +144,7 @@ pub fn s_len_tier(f: Family, max_len: usize, thorough: bool) -> Space {
         describe: if thorough {
             format!("every length 0..={} x 3 modes x 4 levels, family {}, version+mask automatic", max_len, f.name())
         } else {
-            format!("lengths 0..=128, all 40 capacity thresholds -1/0/+1, every 16th length up to {} x 3 modes x 4 levels, family {}, version+mask automatic (complete for that length set; the thorough tier enumerates every length)", max_len, f.name())
+            format!("lengths 0..=128, all 40 capacity thresholds -1/0/+1, every 7th length up to {} x 3 modes x 4 levels, family {}, version+mask automatic (complete for that length set; the thorough tier enumerates every length)", max_len, f.name())
         },
         cases,
         exhaustive: true,
@@ -177,7 +177,7 @@ pub fn s_cross(thorough: bool) -> Space {
         name: format!("S_cross{}", if thorough { "" } else { "/quick" }),
         describe: format!(
             "content of a denser class under a forced less dense mode: (digits->Alphanumeric, digits->Byte, alphanumeric->Byte) x 4 levels x {} up to 40 beyond the v40 capacity of the forced mode, version automatic (and forced 40 on every 64th length and around capacity)",
-            if thorough { "every length" } else { "lengths 0..=128, all capacity thresholds of the forced mode -1/0/+1, every 16th length" }
+            if thorough { "every length" } else { "lengths 0..=128, all capacity thresholds of the forced mode -1/0/+1, every 7th length" }
         ),
         cases,
         exhaustive: true,
